@@ -107,7 +107,7 @@ fn gen_disk_stall(rng: &mut Rng) -> LogWorldScenario {
             outs.push(OutStep { fd: 1, hex: hex(format!("build@{} fd1 #{} round\n", cf.target, r).as_bytes()), pause_ms: if ti == 0 { 5 } else { 0 }, close: false });
         }
         outs.push(OutStep { fd: 1, hex: hex(format!("build@{} fd1 last words\n", cf.target).as_bytes()), pause_ms: 0, close: false });
-        script.behav.push(Behav { command: "build".into(), target: cf.target.clone(), outs, code: 0, exit_pause_ms: 0, early_exit: false, hold_pipes_ms: 0 });
+        script.behav.push(Behav { command: "build".into(), target: cf.target.clone(), outs, code: 0, exit_pause_ms: 0, early_exit: false, hold_pipes_ms: 0, outs_again: vec![] });
     }
     script.strategy = Strategy::RoundRobin;
     script.flush_ms = Some(5);
@@ -144,7 +144,7 @@ fn gen_log_world(seed: u64, idx: usize) -> LogWorldScenario {
             outs.insert(k, OutStep { fd: 1, hex: hex(format!("{}@{} held-open ", cf.command, cf.target).as_bytes()), pause_ms: 0, close: false });
             outs.insert(k + 1, OutStep { fd: 1, hex: hex(b"after the pause\n"), pause_ms: 650, close: false });
         }
-        script.behav.push(Behav { command: cf.command.clone(), target: cf.target.clone(), outs, code: 0, exit_pause_ms: 0, early_exit: false, hold_pipes_ms: 0 });
+        script.behav.push(Behav { command: cf.command.clone(), target: cf.target.clone(), outs, code: 0, exit_pause_ms: 0, early_exit: false, hold_pipes_ms: 0, outs_again: vec![] });
     }
     if rng.chance(1, 12) {
         // one task writes a poorly compressible volume beyond one zstd block on one stream
